@@ -44,6 +44,38 @@ type WCfg struct {
 	HdPath  string `json:"hdpath"` // "" = default
 	CfgFee  string `json:"cfgfee"` // cfg "fee=" ("" = not set)
 	Minsig  bool   `json:"minsig"`
+	// Others: the literal lines of the .others file (imported raw keys: "<WIF> [label]", '#' comment lines). The wallet
+	// loads them IN FRONT of the deterministic keys; a key given in the uncompressed form has no SegWit address.
+	Others []string `json:"others,omitempty"`
+}
+
+// nOthers: how many lines of .others the wallet is expected to load (load_others: empty and '#' lines skipped, a
+// line whose first field does not decode is reported and skipped; a wrong version byte is only warned about).
+func (w *WCfg) nOthers() int {
+	n := 0
+	for _, l := range w.Others {
+		f := strings.SplitN(strings.Trim(l, " "), " ", 2)
+		if len(l) == 0 || f[0] == "" || f[0][0] == '#' {
+			continue
+		}
+		if pa, e := btc.DecodePrivateAddr(f[0]); e == nil && pa != nil {
+			n++
+		}
+	}
+	return n
+}
+
+// writeKeyFiles writes wallet.cfg, .secret and (when the case has imported keys) .others into dir.
+func (w *WCfg) writeKeyFiles(dir string, apply2bal bool) {
+	os.WriteFile(filepath.Join(dir, "wallet.cfg"), []byte(w.cfgText(apply2bal)), 0600)
+	os.WriteFile(filepath.Join(dir, ".secret"), []byte(w.Pass), 0600)
+	if len(w.Others) > 0 {
+		os.WriteFile(filepath.Join(dir, ".others"), []byte(strings.Join(w.Others, "\n")+"\n"), 0600)
+	}
+}
+
+func (w *WCfg) keyCacheKey() string {
+	return fmt.Sprintf("%d|%v|%d|%s|%s|%s|%s", w.Type, w.Testnet, w.Keycnt, w.Seed, w.Pass, w.HdPath, strings.Join(w.Others, "\n"))
 }
 
 func (w *WCfg) bech32Mode() bool { return w.Atype == "bech32" || w.Atype == "tap" }
@@ -140,7 +172,7 @@ func runWallet(dir string, args []string) *RunResult {
 var pubCache sync.Map
 
 func walletPubkeys(w *WCfg) ([][]byte, error) {
-	key := fmt.Sprintf("%d|%v|%d|%s|%s|%s", w.Type, w.Testnet, w.Keycnt, w.Seed, w.Pass, w.HdPath)
+	key := w.keyCacheKey()
 	if v, ok := pubCache.Load(key); ok {
 		return v.([][]byte), nil
 	}
@@ -151,20 +183,19 @@ func walletPubkeys(w *WCfg) ([][]byte, error) {
 	defer os.RemoveAll(dir)
 	w2 := *w
 	w2.Atype = "pks"
-	os.WriteFile(filepath.Join(dir, "wallet.cfg"), []byte(w2.cfgText(true)), 0600)
-	os.WriteFile(filepath.Join(dir, ".secret"), []byte(w.Pass), 0600)
+	w2.writeKeyFiles(dir, true)
 	res := runWallet(dir, []string{"-l", "-q"})
 	var pubs [][]byte
 	for _, l := range strings.Split(res.Stdout, "\n") {
 		f := strings.Fields(l)
-		if len(f) >= 2 && len(f[0]) == 66 {
+		if len(f) >= 2 && (len(f[0]) == 66 || len(f[0]) == 130) { // keys[] in the wallet's own order: imported keys first
 			if b, e := hex.DecodeString(f[0]); e == nil {
 				pubs = append(pubs, b)
 			}
 		}
 	}
-	if len(pubs) != w.Keycnt {
-		return nil, fmt.Errorf("wallet -l listed %d keys, expected %d (exit %d)\n%s\n%s", len(pubs), w.Keycnt, res.Exit, res.Stdout, res.Stderr)
+	if len(pubs) != w.Keycnt+w.nOthers() {
+		return nil, fmt.Errorf("wallet -l listed %d keys, expected %d + %d imported (exit %d)\n%s\n%s", len(pubs), w.Keycnt, w.nOthers(), res.Exit, res.Stdout, res.Stderr)
 	}
 	pubCache.Store(key, pubs)
 	return pubs, nil
@@ -175,7 +206,7 @@ func walletPubkeys(w *WCfg) ([][]byte, error) {
 var privCache sync.Map
 
 func walletPrivkeys(w *WCfg) ([][]byte, error) {
-	key := fmt.Sprintf("%d|%v|%d|%s|%s|%s", w.Type, w.Testnet, w.Keycnt, w.Seed, w.Pass, w.HdPath)
+	key := w.keyCacheKey()
 	if v, ok := privCache.Load(key); ok {
 		return v.([][]byte), nil
 	}
@@ -186,8 +217,7 @@ func walletPrivkeys(w *WCfg) ([][]byte, error) {
 	defer os.RemoveAll(dir)
 	w2 := *w
 	w2.Atype = "p2kh"
-	os.WriteFile(filepath.Join(dir, "wallet.cfg"), []byte(w2.cfgText(true)), 0600)
-	os.WriteFile(filepath.Join(dir, ".secret"), []byte(w.Pass), 0600)
+	w2.writeKeyFiles(dir, true)
 	res := runWallet(dir, []string{"-dump", "*", "-q"})
 	var privs [][]byte
 	for _, l := range strings.Split(res.Stdout, "\n") {
@@ -198,8 +228,8 @@ func walletPrivkeys(w *WCfg) ([][]byte, error) {
 			}
 		}
 	}
-	if len(privs) != w.Keycnt {
-		return nil, fmt.Errorf("wallet -dump listed %d keys, expected %d (exit %d)\n%s\n%s", len(privs), w.Keycnt, res.Exit, res.Stdout, res.Stderr)
+	if len(privs) != w.Keycnt+w.nOthers() {
+		return nil, fmt.Errorf("wallet -dump listed %d keys, expected %d + %d imported (exit %d)\n%s\n%s", len(privs), w.Keycnt, w.nOthers(), res.Exit, res.Stdout, res.Stderr)
 	}
 	privCache.Store(key, privs)
 	return privs, nil
@@ -240,10 +270,17 @@ func ownScript(kind string, pub []byte) []byte {
 }
 
 // ownedBy reports whether the wallet (pubs, atype) treats the script as its own, computed independently of the
-// model: P2PKH / P2WPKH / P2TR of any key always; P2SH-P2WPKH only when the wallet is not in bech32 mode.
+// model: P2PKH / P2WPKH / P2TR of any key always; P2SH-P2WPKH only when the wallet is not in bech32 mode. A key
+// that is not compressed (imported through .others) has its P2PKH address only.
 func ownedBy(pubs [][]byte, bech32 bool, scr []byte) bool {
 	for _, p := range pubs {
-		if bytes.Equal(scr, ownScript("p2pkh", p)) || bytes.Equal(scr, ownScript("p2wpkh", p)) || bytes.Equal(scr, ownScript("p2tr", p)) {
+		if bytes.Equal(scr, ownScript("p2pkh", p)) {
+			return true
+		}
+		if len(p) != 33 {
+			continue
+		}
+		if bytes.Equal(scr, ownScript("p2wpkh", p)) || bytes.Equal(scr, ownScript("p2tr", p)) {
 			return true
 		}
 		if !bech32 && bytes.Equal(scr, ownScript("p2sh", p)) {
